@@ -406,6 +406,15 @@ func (t *parser) listItem(list []interface{}, i, nestedNameLevel int) ([]interfa
 		}
 		// Now we need to get the value after the ].
 		list2, err := t.listItem(crtList, nextI, nestedNameLevel)
+		if err == io.EOF && len(list2) != 0 {
+			// The input ended inside the nested item (e.g. "a[0][0].b="): keep what was
+			// parsed, as key() does for nested maps, and pass io.EOF on.
+			list, serr := setIndex(list, i, list2)
+			if serr != nil {
+				return list, serr
+			}
+			return list, err
+		}
 		if err != nil {
 			return list, err
 		}
@@ -425,6 +434,15 @@ func (t *parser) listItem(list []interface{}, i, nestedNameLevel int) ([]interfa
 
 		// Recurse
 		e := t.key(inner, nestedNameLevel)
+		if e == io.EOF && len(inner) != 0 {
+			// The value ended the input (e.g. "a[0].b="): keep what was parsed, as key()
+			// does for nested maps, and pass io.EOF on.
+			list, serr := setIndex(list, i, inner)
+			if serr != nil {
+				return list, serr
+			}
+			return list, e
+		}
 		if e != nil {
 			return list, e
 		}
